@@ -53,6 +53,7 @@ fn main() {
                 "C02" => checks::c02::run(&tier, &args),
                 "C04" => checks::c04::run(&tier, &args),
                 "C06" => checks::c06::run(&tier, &args),
+                "C05" => checks::c05::run(&tier, &args),
                 _ => { eprintln!("unknown property {id}"); 2 }
             };
             std::process::exit(code);
